@@ -95,7 +95,6 @@ func Main(r *ev.Run, scenarios []Scenario, budget time.Duration, finish func(r *
 
 func worker(scenarios []Scenario, sh string, budget time.Duration) {
 	runtime.GOMAXPROCS(2)
-	vrt.DisableGC()
 	var i, k int
 	fmt.Sscanf(sh, "%d/%d", &i, &k)
 	deadline := time.Now().Add(budget)
